@@ -35,9 +35,10 @@ BOUND = (
     '(repeating; one > 64 KiB), remove, purge tool, close/reopen} on 2 targets x 2 algorithms x runs {1,2}; crash injection before '
     'every intercepted call k (tempfile.mkstemp, os.close, open, pickle.dump (also torn), os.chmod, subprocess.check_output x2, '
     'os.path.exists, os.unlink, shutil.move inside dawgie.db.util; Shelf.__setitem__/__delitem__ = every table write) of one '
-    'update, all k, two crash modes (exception / fork+os._exit), for 4 fixed + 28 seeded random scenarios (thorough tier; the quick '
-    'tier: the overwrite scenario at all k in both modes, two more at every 2nd k as exception), followed by reopen, audit, retry of '
-    'the update, audit (and purge + audit on a subset)'
+    'update, all k, two crash modes (exception / fork+os._exit), for 6 fixed + 28 seeded random scenarios (thorough tier; the quick '
+    'tier: the overwrite scenario at all k in both modes, the repeated-content scenario (same content stored again for another '
+    'target while the first target still refers to it) at all k as exception, two more at every 2nd k plus every call of '
+    'dawgie.db.util.move as exception), followed by reopen, audit, retry of the update, audit (and purge + audit on a subset)'
 )
 
 CLAUSES = [
@@ -398,7 +399,14 @@ SCENARIOS = [
     {'prefix': [['update', 0, 0, 1, [0, 1]]], 'victim': ['update', 1, 1, 2, [1, 1]]},
     # large content (> 64 KiB), new run of a known identity
     {'prefix': [['update', 0, 0, 1, [0, 2]], ['remove', 1, 0, 0, 1]], 'victim': ['update', 0, 0, 2, [2, 3]]},
+    # repeated content: both contents are in the store already AND still referenced by the entries of the other
+    # target; the victim stores the same content again for another target (new keys, nothing new in the store)
+    {'prefix': [['update', 0, 0, 1, [0, 1]]], 'victim': ['update', 0, 1, 1, [0, 1]]},
+    # repeated content for a later run of the same identity (values swapped), the first run keeps referring to it
+    {'prefix': [['update', 0, 0, 1, [0, 1]], ['update', 1, 1, 1, [1, 1]]], 'victim': ['update', 0, 0, 2, [1, 0]]},
 ]
+# calls of dawgie.db.util.move: with a stride > 1 these crash points are never skipped
+MOVE_POINTS = ('os.path.exists', 'os.unlink', 'shutil.move')
 
 
 def random_scenario(rng):
@@ -514,7 +522,9 @@ def run_scenario(args):
         execs = aud0.execs + 1
         n = skipped = 0
         points = []
-        for k in range(1, len(labels) + 1, stride):
+        ks = set(range(1, len(labels) + 1, stride))
+        ks.update(k for k in range(1, len(labels) + 1) if labels[k - 1] in MOVE_POINTS)
+        for k in sorted(ks):
             variants = [(m, False) for m in modes]
             if labels[k - 1] == 'pickle.dump':
                 variants += [(m, True) for m in modes]
@@ -569,7 +579,9 @@ def run(tier: str, seed: int) -> dict:
     if tier == 'quick':
         hist = enum[::4] + [random_history(rng) for _ in range(12)]
         # the overwrite scenario at every k in both modes; two more at every 2nd k
-        scen = [(SCENARIOS[1], ['raise', 'exit'], 0, 1), (SCENARIOS[0], ['raise'], 4, 2), (SCENARIOS[2], ['raise'], 0, 2)]
+        # the repeated-content scenario (content already stored and still referenced elsewhere) at every k as exception;
+        # it is cheap and goes first so that an overloaded machine (deadline) never drops it
+        scen = [(SCENARIOS[4], ['raise'], 0, 1), (SCENARIOS[1], ['raise', 'exit'], 0, 1), (SCENARIOS[0], ['raise'], 4, 2), (SCENARIOS[2], ['raise'], 0, 2)]
         procs = 1
     else:
         hist = enum + [random_history(rng) for _ in range(900)]
@@ -616,7 +628,8 @@ def run(tier: str, seed: int) -> dict:
             f'{len(hist)} histories ({"every 4th of the" if tier == "quick" else "all"} 64 enumerated [update, update at one of 4 places, purge] '
             'histories over contents {0,1}^2, the rest seeded random with 2..5 operations) audited after every operation; '
             f'{len(scen)} crash scenarios x every intercepted call of the victim update (quick tier: every call in both modes for the '
-            f'overwrite scenario, every 2nd call in exception mode for two more) x crash modes = {crash_cases} crash runs '
+            'overwrite scenario, every call in exception mode for the repeated-content scenario, every 2nd call + every call of '
+            f'dawgie.db.util.move (exists / unlink / move) in exception mode for two more) x crash modes = {crash_cases} crash runs '
             f'(intercepted call kinds seen: {sorted(point_kinds)}), each followed by reopen, audit, retry, audit (and purge + audit on a subset); '
             '"cases" = updates/removes/purges/reopens/crash runs executed on the real code, "distinct" = distinct histories + distinct '
             '(scenario, crash point, mode) triples'
